@@ -598,7 +598,7 @@ def run(ctx):
         return
     N = ctx.pick(8, 10)         # exact comparison of the conditional sequence: Polar at n = 1..N+1
     NF = ctx.pick(24, 40)       # far horizon for the limit (validation)
-    n_prog = ctx.pick(20, 150)
+    n_prog = ctx.pick(20, 80)
     base = shapes(ctx.quick)
     n_shapes = len(base)
     base += gen_programs(ctx, max(0, n_prog - len(base)))
@@ -610,11 +610,11 @@ def run(ctx):
             is_shape.append(pi < n_shapes)
             unit_pi.append(pi)
     tasks = [{"kind": "afterloop", "text": P.prog_text(p), "goals": [goal_text(g) for g in goals], "nvals": N + 2,
-              "timeout": ctx.pick(170, 400)} for p, goals, _ in progs]
+              "timeout": ctx.pick(120, 400)} for p, goals, _ in progs]
     import time as _time
     phases = {"props_s": round(ctx.elapsed(), 1)}
     _t = _time.time()
-    results = lib.run_tasks(tasks, timeout=ctx.pick(170, 400))
+    results = lib.run_tasks(tasks, timeout=ctx.pick(120, 400))
     phases["polar_s"] = round(_time.time() - _t, 1)
     errs, feats = {}, {}
     live = []
